@@ -106,21 +106,29 @@ def read_flows(data, variant, tmpdir):
     return list(FlowReader(io.BytesIO(data)).stream())
 
 
-def has_zero_msg_ts(states) -> bool:
-    for s in states:
-        msgs = s.get("messages") or ((s.get("websocket") or {}).get("messages")) or []
-        for m in msgs:
-            ts = m[2] if s["type"] in ("tcp", "udp") else m[3]
-            if not ts:
-                return True
-    return False
+def _msgs(state):
+    """(list of message states, index of the timestamp in a message state) for tcp/udp/websocket flows."""
+    if state.get("type") in ("tcp", "udp"):
+        return state.get("messages") or [], 2
+    ws = state.get("websocket")
+    return ((ws or {}).get("messages") or []), 3
 
 
-def classify_roundtrip(states, difference) -> str | None:
-    """Mechanism of a round-trip difference, from the *input* flows."""
-    if has_zero_msg_ts(states) and difference and "messages" in difference:
-        return "message-timestamp-zero"
-    return None
+def classify_roundtrip(before, after) -> str | None:
+    """Mechanism of a round-trip difference, from the *input* flow: 'message-timestamp-zero' iff the written flow has
+    TCP/UDP/WebSocket messages whose timestamp is 0 / 0.0 / -0.0 and those timestamps are the ONLY thing that differs."""
+    if after is None:
+        return None
+    b, (am, idx) = copy.deepcopy(before), _msgs(after)
+    bm, _ = _msgs(b)
+    if len(bm) != len(am):
+        return None
+    hit = False
+    for x, y in zip(bm, am):
+        if len(x) > idx and len(y) > idx and not x[idx] and isinstance(x[idx], (int, float)) and not isinstance(x[idx], bool):
+            x[idx] = y[idx]
+            hit = True
+    return "message-timestamp-zero" if hit and T.same(b, after) else None
 
 
 # --------------------------------------------------------------------------------------------- (a) round trip
@@ -173,7 +181,7 @@ def case_roundtrip(ctx, tmpdir):
     try:
         loaded = read_flows(data, rv, tmpdir)
     except Exception as e:
-        ctx.violation("read-of-valid-file-raises", {"exc": short(repr(e)), "site": exc_site(e), "kinds": sample["kinds"]}, classify_roundtrip(states, "messages"))
+        ctx.violation("read-of-valid-file-raises", {"exc": short(repr(e)), "site": exc_site(e), "kinds": sample["kinds"]})
         ctx.case(sig, True, sample)
         return
     if len(loaded) != len(flows):
@@ -183,7 +191,7 @@ def case_roundtrip(ctx, tmpdir):
             b = T.norm(g.get_state())
             if not T.same(a, b):
                 d = T.diff(a, b)
-                ctx.violation("state-differs-after-load", {"flow": i, "kind": sample["kinds"][i], "diff": d}, classify_roundtrip([a], d))
+                ctx.violation("state-differs-after-load", {"flow": i, "kind": sample["kinds"][i], "diff": d}, classify_roundtrip(a, b))
                 break
             if type(g) is not type(flows[i]):
                 ctx.violation("flow-class-differs", {"flow": i, "written": type(flows[i]).__name__, "loaded": type(g).__name__})
@@ -191,7 +199,7 @@ def case_roundtrip(ctx, tmpdir):
             ctx.count("roundtrip_attributes")
             sn = T.norm(G.attr_snapshot(g))
             if not T.same(snaps[i], sn):
-                ctx.violation("attributes-differ-after-load", {"flow": i, "kind": sample["kinds"][i], "diff": T.diff(snaps[i], sn)}, classify_roundtrip([a], "messages"))
+                ctx.violation("attributes-differ-after-load", {"flow": i, "kind": sample["kinds"][i], "diff": T.diff(snaps[i], sn)})
                 break
         else:
             ctx.count("reserialise_same_states")
